@@ -34,6 +34,10 @@ pub enum Refusal {
     /// the reply arrives after 2.6 s, beyond the 2 s the consistency error *names* as its timeout: the issuer applies no
     /// timeout of its own (the constant only appears in the error), so this is an acknowledgement like any other
     TooSlow,
+    /// the replica's storage is busy: every write (of the direct message and of the batched copy alike) is performed only
+    /// 2.6 s after it was asked for, and acknowledged then. Until then the replica holds nothing, whatever path the write
+    /// took (after the seeded change `C06q`: with `TooSlow` the batched copy, which is not delayed, had long arrived)
+    StoreStalls,
     /// the replica is a live member but does not serve the consistency service (it answers "unknown service"):
     /// a node between `connect()` and `add_extension()`, or one that never installs the extension
     NoService,
@@ -92,7 +96,8 @@ impl Prop for C06 {
         // four naming styles; the fourth mixes nodes without a configured data centre (the default name) with labelled ones
         // (since the seeded change `C06n`)
         let style = src.below(4);
-        let nodes: Vec<(u8, String)> = (0..n).map(|i| (i as u8 + 1, crate::c15::dc_name(style, src.below(n_dcs)))).collect();
+        let extreme = src.chance(1, 3);
+        let nodes: Vec<(u8, String)> = (0..n).map(|i| (crate::c01::styled_id(extreme, i), crate::c15::dc_name(style, src.below(n_dcs)))).collect();
         let issuer = src.below(n);
         let level = src.below(LEVELS.len());
         let kind = *src.pick(&[Kind::Put, Kind::Del, Kind::PutMany, Kind::DelMany]);
@@ -111,7 +116,7 @@ impl Prop for C06 {
             if i != issuer && src.chance(1, 3) {
                 behaviour.insert(
                     i,
-                    *src.pick(&[Refusal::RequestDropped, Refusal::ReplyDropped, Refusal::StoreFails, Refusal::Slow, Refusal::Duplicated, Refusal::NoService, Refusal::TooSlow]),
+                    *src.pick(&[Refusal::RequestDropped, Refusal::ReplyDropped, Refusal::StoreFails, Refusal::Slow, Refusal::Duplicated, Refusal::NoService, Refusal::TooSlow, Refusal::StoreStalls]),
                 );
             }
         }
@@ -266,6 +271,7 @@ async fn run(case: &Case, net: e3::Net) -> Outcome {
                     n.per_dst.insert(a, Verdict::Delay(Duration::from_millis(2_600)));
                 },
                 Refusal::StoreFails => nodes[*i].store.inner.lock().fail_all = true,
+                Refusal::StoreStalls => nodes[*i].store.inner.lock().write_delay_ms = 2_600,
                 Refusal::NoService => {
                     use datacake_rpc::RpcService;
                     nodes[*i].node.verif_remove_rpc_service(
@@ -361,7 +367,7 @@ async fn run(case: &Case, net: e3::Net) -> Outcome {
                 .iter()
                 .filter(|a| {
                     let idx = nodes.iter().position(|n| n.addr == **a).unwrap();
-                    matches!(case.behaviour.get(&idx), Some(Refusal::TooSlow))
+                    matches!(case.behaviour.get(&idx), Some(Refusal::TooSlow) | Some(Refusal::StoreStalls))
                 })
                 .count();
             ensure!(
@@ -400,8 +406,12 @@ async fn run(case: &Case, net: e3::Net) -> Outcome {
         let mut n = net.borrow_mut();
         n.per_dst.clear();
     }
-    for n in &nodes {
-        n.store.inner.lock().fail_all = false;
+    for (i, n) in nodes.iter().enumerate() {
+        let mut g = n.store.inner.lock();
+        g.fail_all = false;
+        if case.behaviour.get(&i) == Some(&Refusal::StoreStalls) {
+            g.write_delay_ms = 0;
+        }
     }
     e3::advance(1_000 + 3 * 5_000 + 500).await;
     for (id, t) in &written {
